@@ -96,6 +96,10 @@ impl<'a> IntoIterator for &'a Directory {
 }
 
 impl Directory {
+    fn invalid_data(message: &'static str) -> std::io::Error {
+        std::io::Error::new(std::io::ErrorKind::InvalidData, message)
+    }
+
     #[duplicate_item(
         fn_name                  cfg_async_filter       input_traits                         decompress(compression, binding)              read_varint(type, reader)                  async;
         [from_reader_impl]       [cfg(all())]           [impl Read]                          [decompress(compression, &mut binding)]       [reader.read_varint::<type>()]             [];
@@ -113,14 +117,17 @@ impl Directory {
 
         let num_entries = read_varint([usize], [reader])?;
 
-        let mut entries = Vec::<Entry>::with_capacity(num_entries);
+        // the count is untrusted input: do not reserve more than a sane amount up front
+        let mut entries = Vec::<Entry>::with_capacity(num_entries.min(1 << 16));
 
         // read tile_id
         let mut last_id = 0u64;
         for _ in 0..num_entries {
             let tmp = read_varint([u64], [reader])?;
 
-            last_id += tmp;
+            last_id = last_id
+                .checked_add(tmp)
+                .ok_or_else(|| Self::invalid_data("Tile id of a directory entry is too large."))?;
             entries.push(Entry {
                 tile_id: last_id,
                 length: 0,
@@ -131,7 +138,15 @@ impl Directory {
 
         // read run_length
         for i in 0..num_entries {
-            entries[i].run_length = read_varint([_], [reader])?;
+            let run_length: u32 = read_varint([_], [reader])?;
+
+            if entries[i].tile_id.checked_add(u64::from(run_length)).is_none() {
+                return Err(Self::invalid_data(
+                    "Run of a directory entry exceeds the tile id space.",
+                ));
+            }
+
+            entries[i].run_length = run_length;
         }
 
         // read length
@@ -153,9 +168,14 @@ impl Directory {
             let val = read_varint([u64], [reader])?;
 
             entries[i].offset = if i > 0 && val == 0 {
-                entries[i - 1].offset + u64::from(entries[i - 1].length)
+                entries[i - 1]
+                    .offset
+                    .checked_add(u64::from(entries[i - 1].length))
+                    .ok_or_else(|| Self::invalid_data("Offset of a directory entry is too large."))?
             } else {
-                val - 1
+                val.checked_sub(1).ok_or_else(|| {
+                    Self::invalid_data("First offset of a directory must not be 0.")
+                })?
             };
         }
 
